@@ -9,17 +9,18 @@ import (
 
 // propOwner is the reference model of one owner's properties: a plain map.
 type propOwner struct {
-	name   string
-	vals   map[interface{}]interface{}
-	access func() tabular.PropertyOwner // how to reach the owner right now
-	chain  func() string                // %#v text that prints exactly this owner's chain ("" = not measurable)
-	alias  *propOwner                   // a handle shares the model of what it points to
-	order  []interface{}                // keys in order of their last non-nil set
-	shares bool                         // a copy whose chain links may be shared with its source
-	stale  func() bool                  // handles: does Column(n) now return a different pointer?
-	cell   *tabular.Cell                // copies: the caller-owned cell value
-	sizes  map[string]int               // printed size of the stored state, per set of keys held
-	regs   []*SimCallback               // copies: cell-owned registrations the value carries
+	name     string
+	vals     map[interface{}]interface{}
+	access   func() tabular.PropertyOwner // how to reach the owner right now
+	chain    func() string                // %#v text that prints exactly this owner's chain ("" = not measurable)
+	alias    *propOwner                   // a handle shares the model of what it points to
+	order    []interface{}                // keys in order of their last non-nil set
+	shares   bool                         // a copy whose chain links may be shared with its source
+	stale    func() bool                  // handles: does Column(n) now return a different pointer?
+	cell     *tabular.Cell                // copies: the caller-owned cell value
+	sizes    map[string]int               // printed size of the stored state, per set of keys held
+	regs     []*SimCallback               // copies: cell-owned registrations the value carries
+	writable func() bool                  // live cells: is there a lookup that promises the cell itself?
 }
 
 func (p *propOwner) model() *propOwner {
@@ -97,16 +98,17 @@ func (w *World) cellOwner(c *mCell) *propOwner {
 	if c.owner == nil {
 		c.owner = &propOwner{name: cellName(c), vals: map[interface{}]interface{}{}}
 		c.owner.access = func() tabular.PropertyOwner {
-			if p := w.livePtr(c); p != nil {
+			if p := w.readPtr(c); p != nil {
 				return p
 			}
 			return nil
 		}
+		c.owner.writable = func() bool { return w.addrPtr(c) != nil }
 		c.owner.chain = func() string {
 			if w.rendered {
 				return "" // renderers keep private measurement keys on cells
 			}
-			if p := w.livePtr(c); p != nil {
+			if p := w.readPtr(c); p != nil {
 				return fmt.Sprintf("%#v", p)
 			}
 			return ""
@@ -171,6 +173,12 @@ func (w *World) DoProp(st *Step) bool {
 			return true
 		}
 		o := owners[len(owners)-1-i]
+		if o.writable != nil && !o.writable() {
+			// a header cell or a cell of a row not in a table: readable (checked
+			// after every step) but nothing the API hands out is promised to be the
+			// stored cell, so nothing is written through it
+			return true
+		}
 		po := o.access()
 		if po == nil {
 			return true
@@ -310,11 +318,14 @@ func (w *World) DoProp(st *Step) bool {
 			return true
 		}
 		src := all[len(all)-1-i]
-		p := w.livePtr(src)
+		p := w.readPtr(src)
 		if p == nil {
 			return true
 		}
 		if st.Op == "updateCell" {
+			if p = w.addrPtr(src); p == nil {
+				return true
+			}
 			p.Update() // re-reads the item; must not touch properties
 			w.probe("cell_updated")
 			return true
